@@ -170,7 +170,7 @@ def shape(items):
 
 def _strip(items):
     i = 0
-    while i < len(items) and items[i] is None:
+    while i < len(items) and (items[i] is None or items[i] is UNSPEC):
         i += 1
     return items[i:] if i else items
 
